@@ -4,7 +4,7 @@
    changes in a way that is not behaviour-preserving (a different comparison, a moved cursor
    update, cursor + size re-introduced, end() reused as the bounds test ...). *)
 From Common Require Import Prelude.
-From C15 Require Import Model Proofs ProofsCodec ProofsFixed ProofsInto ProofsLife FactsModel.
+From C15 Require Import Model Proofs ProofsCodec ProofsFixed ProofsInto ProofsLife ProofsHist FactsModel.
 From C15.gen Require Import Facts.
 Local Open Scope Z_scope.
 
@@ -141,4 +141,22 @@ Lemma src_overload_selection :
 Proof.
   assert (E : gen_selection = exp_selection) by (vm_compute; reflexivity).
   rewrite E. split; [exact exp_selection_out | split; [exact exp_selection_in | reflexivity]].
+Qed.
+
+(* the reader's whole state is (shared buffer reference, cursor): together with src_read_is_model /
+   src_view_is_model / src_end_is_model - whose expressions mention only cursor, the size parameter
+   and buffer->size() / buffer->begin() - every observation is a function of the buffer's CURRENT
+   contents, which is what Model.h_step says.  A cached extent (numBytes, a base pointer) breaks this. *)
+Lemma src_reader_state_is_buffer_and_cursor :
+  gen_reader_state = true /\
+  forall st k c mem size, nth_error (h_curs st) k = Some c -> 0 <= c -> len (h_buf st) < 2 ^ 64 ->
+    match exec_rd gen_read mem size (h_reader st c) [] with
+    | ROk bs r' => h_step st (HRead k mem size) = ({| h_buf := h_buf st; h_curs := set_nth (h_curs st) k (r_cur r') |}, HBytes bs)
+    | RThrow => h_step st (HRead k mem size) = (st, HThrow)
+    | ROob => h_step st (HRead k mem size) = (st, HOob)
+    end.
+Proof.
+  split; [vm_compute; reflexivity|]. intros st k c mem size Hk Hc Hl.
+  rewrite src_read_is_model by assumption. cbn [h_step]. rewrite Hk.
+  destruct (rd_read (h_reader st c) mem size); reflexivity.
 Qed.
